@@ -545,6 +545,16 @@ class BackendTranslator:
             return "BEReadonly"
         if isinstance(t, ast.UnaryOp) and isinstance(t.op, ast.Not):
             return f"(BENot {self.cond(t.operand)})"
+        if isinstance(t, ast.BoolOp) and isinstance(t.op, ast.And) and len(t.values) >= 2:
+            out = self.cond(t.values[-1])
+            for v in reversed(t.values[:-1]):
+                out = f"(BEAnd {self.cond(v)} {out})"
+            return out
+        if isinstance(t, ast.Compare) and len(t.ops) == 1 and isinstance(t.ops[0], (ast.Eq, ast.NotEq)) \
+                and self._self_attr(t.left) == "_state" and isinstance(t.comparators[0], ast.Constant) \
+                and t.comparators[0].value in ("idle", "reading", "writing"):
+            e = "(BEState S%s)" % t.comparators[0].value.capitalize()
+            return e if isinstance(t.ops[0], ast.Eq) else f"(BENot {e})"
         if isinstance(t, ast.Call) and isinstance(t.func, ast.Name) and t.func.id == "hasattr" and len(t.args) == 2 \
                 and isinstance(t.args[0], ast.Name) and t.args[0].id == "self" and isinstance(t.args[1], ast.Constant) and t.args[1].value == "_ukvfile":
             return "BEHasUkv"
